@@ -13,7 +13,8 @@
 
    trace  = [id, dev : [log, param : device tables], ev : Seq of events, expect : number of
              connects]
-   events   [e |-> "start", kind, ver, crc, cached, resend]
+   events   [e |-> "start", kind, ver, crc, cached, resend (, dev: the table of this attempt when the device is
+             reflashed before the connection that is judged)]
             [e |-> "devreply" | "dup" | "timeout", kind, ch, d]
             [e |-> "rx", kind, ch, d, st : [lt, fstate, cb, reqIdx, nItems, ntoc, done, xcount]]
             (ch 1 = the log RESET command and its reply; "start" of the log download = Log.refresh_toc;
@@ -62,7 +63,7 @@ ConformMine(A) == IF Mine THEN Conform(A) ELSE UNCHANGED <<conf, confAt, specvar
 Quiet == UNCHANGED <<bad, badAt, wit, nconn>>
 
 EStart == /\ Ev.e = "start" /\ Quiet
-          /\ D!StartTo([kind |-> Ev.kind, ver |-> Ev.ver, dev |-> DevOf(Ev.kind), crc |-> Ev.crc,
+          /\ D!StartTo([kind |-> Ev.kind, ver |-> Ev.ver, dev |-> (IF "dev" \in DOMAIN Ev THEN Ev.dev ELSE DevOf(Ev.kind)), crc |-> Ev.crc,
                         cached |-> Ev.cached, resend |-> Ev.resend])
           /\ UNCHANGED <<conf, confAt>>
 
